@@ -17,7 +17,9 @@ CHECKS = {
                  "LibcstResultTransformer.replace_args (loop invariants: no argument is dropped; every argument whose keyword is not named in "
                  "the edit is kept, identical and in place; additions only after the original arguments), _match_with_existing_arg, add_arg_to_call (one argument appended, the others identical and in "
                  "place), update_call_target (only the callee changes), update_arg_target, ImportedCallModifier.leave_Call (an unselected or non-matching "
-                 "call is returned untouched; at most one change per call, naming the call's line) and https-connection's count_positional_args."),
+                 "call is returned untouched; at most one change per call, naming the call's line) and https-connection's count_positional_args. BOUNDED "
+                 "stand-in (not counted as proved): the hardening codemods that run offline, through the real CLI on generated call shapes - nested "
+                 "calls, star / double-star arguments and dict spreads of the rewritten call must be preserved."),
         "note": ("libcst nodes are opaque immutable records; matchers.matches(arg.keyword, m.Name(n)) is an uninterpreted predicate. Each codemod's "
                  "own on_result_found, import edits and the remaining helpers are out of reach and listed as such in the evidence."),
         "design_ref": "DESIGN.md section 4 C16",
@@ -60,10 +62,13 @@ CHECKS = {
     "C04": {
         "text": ("Deductive over the ghost file system: on every path of the three pipelines' apply, update_code, DependencyWriter.write, "
                  "RequirementsTxtWriter.add_to_file, DependencyManager.write (dry_run forwarded to the writer chosen by manifest kind), "
-                 "process_dependencies and _process_file: dry_run => fs == old(fs); the context constructor stores dry_run unchanged."),
+                 "process_dependencies and _process_file: dry_run => fs == old(fs); the context constructor stores dry_run unchanged; all four manifest "
+                 "writers against the dispatch clauses; write-site frame scan. BOUNDED stand-in (not counted as proved) for the 2-safety half: the real "
+                 "CLI with and without --dry-run on copies of a small project - the dry-run tree is byte-identical and its report (changesets, change "
+                 "entries, failed files) equals the real run's."),
         "note": ("Trusted: file-system model; transformers/SAX handlers write no project file; the other three manifest writers are covered only "
                  "through the dynamic-dispatch contract of add_to_file (assumed at the call site). The 'report of a dry run equals the report "
-                 "of a real run' half (2-safety) is NOT proved: out of reach of the delivered generator, stated in evidence."),
+                 "of a real run' half (2-safety) is not proved deductively (bounded stand-in only)."),
         "design_ref": "DESIGN.md section 4 C04",
     },
     "C09": {
@@ -92,7 +97,9 @@ CHECKS = {
     "C11": {
         "text": ("Deductive, restricted: worker bound - the only thread pool BaseCodemod._apply creates has max_workers == context.max_workers "
                  "(ghost pool_bounds), the option reaches the context unchanged; per-file frame - _process_file changes nothing of the shared "
-                 "context and only its own file on disk; aggregation happens in process_results in input order."),
+                 "context and only its own file on disk; aggregation happens in process_results in input order. Syntactic obligation over every class of "
+                 "the two packages: no class attribute holding a mutable object is mutated through instances unless __init__ re-binds it (per-file / "
+                 "per-run state is not shared between worker threads or runs)."),
         "note": ("Thread interleavings themselves are outside this family: schedule independence is argued from the frame contracts, not "
                  "explored. Hash-seed/enumeration-order obligations (registry, match_files) are part of C17/C05 when claimed."),
         "design_ref": "DESIGN.md section 4 C11",
